@@ -486,7 +486,8 @@ func (a *asset) generateTimelineEntries(repID string, wt wrapTimes, atoMS int) s
 		return uint64(relTime), wraps
 	}
 
-	relStartTime, startWraps := normalize(toTicks(wt.startRelMS+atoMS), wt.startWraps)
+	// The window start is limited to the stream start after the availabilityTimeOffset has been added
+	relStartTime, startWraps := normalize(toTicks(wt.startRelMS-wt.startDeficitMS+atoMS), wt.startWraps)
 	wt.startWraps = startWraps
 	relStartIdx := 0
 	if relStartTime < segs[0].EndTime {
